@@ -257,13 +257,15 @@ func (ch *Channel) getRequestState(retryOpts *RetryOptions) *RequestState {
 	return rs
 }
 
-// getHost returns the host part of a host:port. If no ':' is found, it returns the
-// original string. Note: This hand-rolled loop is faster than using strings.IndexByte.
+// getHost returns the host part of a host:port: everything before the last ':' (the
+// one in front of the port), so that a bracketed IPv6 host:port like "[::1]:4040" gives
+// "[::1]" and not "[". If no ':' is found, it returns the original string.
 func getHost(hostPort string) string {
+	end := len(hostPort)
 	for i := 0; i < len(hostPort); i++ {
 		if hostPort[i] == ':' {
-			return hostPort[:i]
+			end = i
 		}
 	}
-	return hostPort
+	return hostPort[:end]
 }
